@@ -435,6 +435,9 @@ def fold_constants(fn):
                     h.body = block(h.body)
             if isinstance(s, ast.If) and isinstance(s.test, ast.Constant):
                 out += s.body if _truth(s.test) else s.orelse
+                if any(isinstance(x, (ast.Raise, ast.Return, ast.Break,
+                                      ast.Continue)) for x in out[-1:]):
+                    break          # what follows cannot be reached
                 continue
             if isinstance(s, ast.If) and not s.body:
                 s.body = [ast.copy_location(ast.Pass(), s)]
@@ -652,3 +655,225 @@ def detable(fn):
     info["lists"] = scalarise_lists(fn) if info["loops"] else 0
     ast.fix_missing_locations(fn)
     return fn, info
+
+
+# ---------------------------------------------------------------------------
+def expand_table_lookups(fn, resolve_table, nonnull=None, max_rest=40):
+    """Lookups in a constant table become the if-chain they abbreviate:
+
+        f = T.get(k)           if k == K1: REST[f := V1]
+        REST              ->   elif k == K2: REST[f := V2]
+                               else: REST[f := None]
+        return T.get(k, d) ->  if k == K1: return V1 ... else: return d
+        return T[k]        ->  ... else: raise KeyError(k)   (dict)
+                               elif 0 <= k < n chain; otherwise unchanged
+                                                              (tuple / list)
+
+    `resolve_table(expr)` gives the display (ast.Dict / Tuple / List) an
+    expression such as `self._TABLE` is bound to, or None.  After the
+    substitution `V is None` is decided for values that cannot be None and a
+    call of a lambda value is beta-reduced.  Returns the number of lookups
+    expanded (fn is modified in place: pass a copy)."""
+    count = [0]
+    nonnull = nonnull or (lambda e: False)
+
+    def lookup(e):
+        """(table display, key expr, default expr or 'raise') or None"""
+        if isinstance(e, ast.Call) and isinstance(e.func, ast.Attribute) \
+                and e.func.attr == "get" and 1 <= len(e.args) <= 2 and \
+                not e.keywords:
+            t = resolve_table(e.func.value)
+            if isinstance(t, ast.Dict):
+                return t, e.args[0], (e.args[1] if len(e.args) == 2
+                                      else ast.Constant(None))
+        if isinstance(e, ast.Subscript) and isinstance(e.ctx, ast.Load) and \
+                not isinstance(e.slice, ast.Slice):
+            t = resolve_table(e.value)
+            if isinstance(t, (ast.Dict, ast.Tuple, ast.List)):
+                return t, e.slice, "raise"
+        return None
+
+    def rows(t):
+        if isinstance(t, ast.Dict):
+            if any(k is None or not isinstance(k, ast.Constant)
+                   for k in t.keys):
+                return None
+            return list(zip(t.keys, t.values))
+        if any(isinstance(x, ast.Starred) for x in t.elts):
+            return None
+        return [(ast.Constant(i), v) for i, v in enumerate(t.elts)]
+
+    def pure(e):
+        return not any(isinstance(n, (ast.Call, ast.Await, ast.Yield,
+                                      ast.YieldFrom, ast.NamedExpr))
+                       for n in ast.walk(e))
+
+    def chain(key, rws, mk, default_block, seq=False):
+        out = default_block
+        for (k, v) in reversed(rws):
+            test = ast.Compare(acopy(key), [ast.Eq()], [acopy(k)])
+            out = [ast.If(test, mk(v), out)]
+        return out
+
+    def block(stmts):
+        out = []
+        i = 0
+        while i < len(stmts):
+            s = stmts[i]
+            for fld in ("body", "orelse", "finalbody"):
+                sub = getattr(s, fld, None)
+                if isinstance(sub, list) and sub and isinstance(
+                        sub[0], ast.stmt) and not isinstance(
+                            s, (ast.FunctionDef, ast.AsyncFunctionDef,
+                                ast.ClassDef)):
+                    setattr(s, fld, block(sub))
+            if isinstance(s, ast.Try):
+                for h in s.handlers:
+                    h.body = block(h.body)
+            if isinstance(s, ast.Return) and s.value is not None:
+                lk = lookup(s.value)
+                if lk is not None and pure(lk[1]):
+                    t, key, dflt = lk
+                    rws = rows(t)
+                    if rws is not None and len(rws) <= MAX_ROWS:
+                        if dflt == "raise":
+                            if isinstance(t, ast.Dict):
+                                tail = [ast.Raise(ast.Call(ast.Name(
+                                    "KeyError", ast.Load()), [acopy(key)],
+                                    []), None)]
+                            else:
+                                # outside 0..n-1: negative indices count
+                                # from the end, larger ones raise
+                                tail = [ast.If(
+                                    ast.Compare(acopy(key), [ast.GtE()],
+                                                [ast.Constant(len(rws))]),
+                                    [ast.Raise(ast.Call(ast.Name(
+                                        "IndexError", ast.Load()), [], []),
+                                        None)],
+                                    [acopy(s)])]
+                        else:
+                            tail = [ast.Return(acopy(dflt))]
+                        new = chain(key, rws,
+                                    lambda v: [ast.Return(acopy(v))], tail)
+                        for x in new:
+                            ast.copy_location(x, s)
+                            ast.fix_missing_locations(x)
+                        out += new
+                        count[0] += 1
+                        i += 1
+                        continue
+            if isinstance(s, ast.Assign) and len(s.targets) == 1 and \
+                    isinstance(s.targets[0], ast.Name):
+                lk = lookup(s.value)
+                name = s.targets[0].id
+                rest = stmts[i + 1:]
+                if lk is not None and pure(lk[1]) and lk[2] != "raise" and \
+                        isinstance(lk[0], ast.Dict) and len(
+                            list(ast.walk(ast.Module(rest, [])))) < \
+                        max_rest * 12 and not any(
+                            isinstance(n, ast.Name) and n.id == name and
+                            isinstance(n.ctx, (ast.Store, ast.Del))
+                            for r in rest for n in ast.walk(r)) and not any(
+                                isinstance(n, ast.Name) and isinstance(
+                                    n.ctx, ast.Store) and n.id in {
+                                        x.id for x in ast.walk(lk[1])
+                                        if isinstance(x, ast.Name)}
+                                for r in rest for n in ast.walk(r)):
+                    t, key, dflt = lk
+                    rws = rows(t)
+                    if rws is not None and len(rws) <= MAX_ROWS:
+                        def mk(v, rest=rest, name=name):
+                            v2 = acopy(v)
+                            if isinstance(v2, ast.Lambda) or nonnull(v2):
+                                v2._nonnull = True
+                            env = {name: v2}
+                            body = [_SubstKeep(env).visit(acopy(r))
+                                    for r in rest]
+                            return block(body) or [ast.Pass()]
+                        new = chain(key, rws, mk, mk(dflt))
+                        for x in new:
+                            ast.copy_location(x, s)
+                            ast.fix_missing_locations(x)
+                        out += new
+                        count[0] += 1
+                        break        # rest has been consumed
+            out.append(s)
+            i += 1
+        return out
+    fn.body = block(fn.body)
+    if count[0]:
+        _BetaNull().visit(fn)
+        fold_constants(fn)
+    return count[0]
+
+
+class _SubstKeep(_SubstNames):
+    """Substitution that keeps the _nonnull mark of the inserted value."""
+
+    def visit_Name(self, n):
+        if isinstance(n.ctx, ast.Load) and n.id in self.env:
+            v = acopy(self.env[n.id])
+            if getattr(self.env[n.id], "_nonnull", False):
+                v._nonnull = True
+            return ast.copy_location(v, n)
+        return n
+
+
+class _BetaNull(ast.NodeTransformer):
+    """(lambda a: E)(x) -> E[a := x];  V is None -> False for table values
+    that are not None; None is None -> True."""
+
+    def visit_Call(self, n):
+        self.generic_visit(n)
+        f = n.func
+        if isinstance(f, ast.Lambda) and not n.keywords and not (
+                f.args.vararg or f.args.kwarg or f.args.kwonlyargs or
+                f.args.defaults) and len(f.args.args) == len(n.args) and all(
+                    _is_atomic(a) for a in n.args):
+            env = {p.arg: a for p, a in zip(f.args.args, n.args)}
+            return _SubstNames(env).visit(acopy(f.body))
+        return n
+
+    def visit_Compare(self, n):
+        self.generic_visit(n)
+        if len(n.ops) == 1 and isinstance(n.ops[0], (ast.Is, ast.IsNot)) \
+                and isinstance(n.comparators[0], ast.Constant) and \
+                n.comparators[0].value is None:
+            l = n.left
+            r = None
+            if isinstance(l, ast.Constant):
+                r = l.value is None
+            elif getattr(l, "_nonnull", False) or isinstance(l, ast.Lambda):
+                r = False
+            if r is not None:
+                if isinstance(n.ops[0], ast.IsNot):
+                    r = not r
+                return ast.copy_location(ast.Constant(r), n)
+        return n
+
+
+def class_table_resolver(world, cls, modname):
+    """resolve_table callback: `self.X` / `cls.X` / `<ClassName>.X` bound to
+    a display in the class body, or a module-level name bound to one."""
+    def resolve(e):
+        if isinstance(e, ast.Attribute) and isinstance(e.value, ast.Name) \
+                and cls is not None and (e.value.id in ("self", "cls") or
+                                         e.value.id == cls.name):
+            r = cls.lookup(e.attr)
+            if r is not None and r[1] == "attr" and isinstance(
+                    r[2], (ast.Dict, ast.Tuple, ast.List)):
+                return r[2]
+        if isinstance(e, ast.Name):
+            b = world.lookup(modname, e.id)
+            v = getattr(b, "value", None) if b is not None and getattr(
+                b, "kind", None) == "expr" else None
+            if isinstance(v, (ast.Dict, ast.Tuple, ast.List)):
+                return v
+        return None
+
+    def nonnull(e):
+        try:
+            return world.resolve_class(modname, e) is not None
+        except Exception:
+            return False
+    return resolve, nonnull
